@@ -508,6 +508,10 @@ func init() {
 		if ex.mutexHeld[p] > 0 {
 			return ex.ctx.tFalse
 		}
+		if ex.cfg.SingleThread {
+			ex.mutexHeld[p]++
+			return ex.ctx.tTrue
+		}
 		// lock may be held by another goroutine: nondeterministic outcome
 		ok := ex.ctx.Var("nd:"+ex.ndKey("trylock"), SBool, nil, nil)
 		if ex.branch(ok) {
